@@ -32,7 +32,7 @@ impl Monitor for C11 {
 		"C11"
 	}
 	fn rule(&self) -> String {
-		"C01's well-formed replay space; each file is followed by random trailing garbage after its closing brace (which must NOT be hashed) and read with compute_hash through the instrumented source under fragmentation schedules {whole, 1-byte, fixed 2/3/7/64/4096, random 1..5, random 1..300, every two-piece split (every 3rd file <= 3 KB in quick; every file <= 40 KB in thorough; 64 random splits otherwise)} x skip-frames {off, on (finished files only)}. Oracle: hash == 'xxh3:' + 16 lowercase hex digits of the one-shot xxh3_64 over exactly the bytes the counting source delivered, which must equal the file through its closing brace; identical across schedules and skip on/off; None when hashing is not requested; unchanged by a .slpp round trip. One evaluation = one read. distinct = workload classes x schedule.".into()
+		"C01's well-formed replay space; each file is followed by random trailing garbage after its closing brace (which must NOT be hashed) and read with compute_hash through the instrumented source under fragmentation schedules {whole, 1-byte, fixed 2/3/7/64/4096, random 1..5, random 1..300, every two-piece split (every 3rd file <= 3 KB in quick; every 2nd file <= 12 KB in thorough; 64 random splits otherwise)} x skip-frames {off, on (finished files only)}. Oracle: hash == 'xxh3:' + 16 lowercase hex digits of the one-shot xxh3_64 over exactly the bytes the counting source delivered, which must equal the file through its closing brace; identical across schedules and skip on/off; None when hashing is not requested; unchanged by a .slpp round trip. One evaluation = one read. distinct = workload classes x schedule.".into()
 	}
 	fn assumptions(&self) -> Vec<String> {
 		vec!["the XXH3-64 digest function (xxhash-rust one-shot API) is trusted; peppi uses the streaming API".into()]
@@ -59,7 +59,7 @@ impl Monitor for C11 {
 		if big {
 			policies = vec![Policy::Whole, Policy::Fixed(7), Policy::Random(300, rng.next())];
 		}
-		let all_splits = bytes.len() <= ctx.tier.pick(3000, 40_000) && (ctx.tier == Tier::Thorough || idx % 3 == 0);
+		let all_splits = bytes.len() <= ctx.tier.pick(3000, 12_000) && idx % ctx.tier.pick(3, 2) == 0;
 		if all_splits {
 			for p in 1..bytes.len() {
 				policies.push(Policy::Split(p));
